@@ -21,7 +21,7 @@ CLAIMS = {
  "C10": ("model_checking", "5/C10", "Classification/atomicity property C10_Step model-checked on all (state, key, size) combinations incl. simultaneous failure conditions; replay compares variant, numeric fields, identity of the returned pair and the untouched state; trace validation on random states."),
  "C11": ("model_checking", "5/C11", "C11_Step model-checked for shrink/equal/grow-fits/grow-evicts/overflow at every position; replay compares result forwarding, closure-ran flag, error fields, identity and post-state."),
  "C13": ("model_checking", "5/C13", "Plus: allocation refused at exactly the n-th allocation of every try_reserve (sweep), FIFO-churn traces that reach tombstone-driven rebuilds, MC_Tomb (probe group width 2) for tombstone arithmetic at design level. C13_Step/C13_Virgin/C13_GrowthBound model-checked with hashbrown's capacity arithmetic transcribed; replay compares capacity and bucket count exactly after every edge incl. overflow and injected allocator refusal; traces reach tombstone-heavy tables."),
- "C12": ("model_checking", "5/C12", "Iterator sub-machine (IterYields/IterRest + declarative C12_Step: front prefix, back prefix of the reverse, each entry once, None only after exhaustion and then forever) model-checked for all words over {next,next_back} up to len+2 (quick) / len+3 (thorough) and all 7 kinds; every such run replayed on the real iterators comparing yields by object identity, post-state, drops of unconsumed entries."),
+ "C12": ("model_checking", "5/C12", "Iterator sub-machine (IterYields/IterRest + declarative C12_Step: front prefix, back prefix of the reverse, each entry once, None only after exhaustion and then forever) model-checked for all words over {next, next_back, nth(1), nth(2), nth_back(1), nth_back(2)} up to length len+1 (3 key ids quick, 4 thorough) and all 7 kinds (nth passes over entries: an owning iterator or drain must drop them; skip / step_by / rev of std are built from these calls); every such run replayed on the real iterators comparing yields by object identity, post-state, drops of unconsumed entries."),
  "C14": ("model_checking", "5/C14", "clone_from is modelled as well; traces with values whose clones differ in size check that recorded sizes are copied. Two-cache model: clone in every state then every operation on either cache with the frame condition (other cache unchanged) as an action property; replay compares the clone's entries, order, recorded sizes, sizes, capacity and the identity of its objects (fresh clones of the source's), and the structural fingerprint of the other cache after every call."),
  "C16": ("model_checking", "5/C16", "Includes sweeps on caches of 70-224 entries with panics at the callbacks around powers of two and the entry count, continued use of an entry whose mutate closure panicked, and LruList with a Panic action at every user-code point. Crash points as events: for sampled edges of the bounded model a panic is injected at the n-th hash / eq / size / clone / closure callback for every n until the operation completes, followed by continued use and drop; TLC validates each crash event against the declarative CrashBad consistency predicate (structure well-formed, sizes sum, no double drop, no invented/lost entries for closure panics) and every later step against the ordinary specification."),
  "C17": ("model_checking", "5/C17", "Every (state, iterator kind, word, forget) edge of the iterator model is executed on the real cache as its own segment followed by continued use and drop; TLC validates the declarative ForgetBad predicate (valid cache, nothing yielded still inside, conservation of objects, no registry anomaly) and all later steps."),
